@@ -1066,7 +1066,7 @@ class Env:
             except z3.Z3Exception:
                 self.model = None
 
-    def _check(self, *assumptions):
+    def _check(self, *assumptions, long=False):
         """Incremental check first (short timeout); on unknown, a fresh one-shot solver with z3's
         full preprocessing pipeline (decides many multiplier queries the incremental core cannot)."""
         eng = self.engine
@@ -1080,7 +1080,7 @@ class Env:
                 self._inc_failed += 1
         if r == z3.unknown:
             s2 = z3.Solver()
-            s2.set("timeout", eng.timeout_ms)
+            s2.set("timeout", max(eng.timeout_ms, eng.vc_timeout_ms) if long else eng.timeout_ms)
             for a in self.solver.assertions():
                 s2.add(a)
             for a in assumptions:
@@ -1255,7 +1255,7 @@ class Env:
         if z3.is_true(cond):
             self.claims.append((label, "ok", None))
             return True
-        r = self._check(z3.Not(cond))
+        r = self._check(z3.Not(cond), long=True)
         if r == z3.unsat:
             self.claims.append((label, "ok", None))
             return True
@@ -1330,6 +1330,7 @@ class ConcEnv:
         self._trace = list(model.get("trace", []))
         self._tpos = 0
         self._fresh = 0
+        self.site_bounds: dict = {}
 
     def int(self, name, lo, hi):
         if lo == hi:
@@ -1419,6 +1420,7 @@ class Engine:
         self.timeout_ms = timeout_ms
         self.incremental_timeout_ms = incremental_timeout_ms
         self.cut_on_undecided = False
+        self.vc_timeout_ms = 40000
         self.max_paths = max_paths
         self.want_models = want_models  # export a model for every k-th completed path (0 = never)
         self.solver = None
